@@ -1,4 +1,4 @@
-import Tea.Proofs.LifecycleStartup
+import Tea.Proofs.LifecycleExec
 import Tea.Proofs.LifeAccept
 /-
 C04 — Run always returns, with the right error, whatever is in flight at termination.
@@ -20,7 +20,9 @@ any number of goroutines blocked in Send or Wait. They hold for EVERY configurat
 `c : Config` and EVERY schedule (`Reachable c s` quantifies over all label sequences
 from `init0 c`, external labels - user code returning or panicking, failures of the
 start-up, signals, input, API calls, Kill(), parent-context cancellation - included; a
-Kill() or a cancellation may come at ANY point of the start-up, section 5).
+Kill() or a cancellation may come at ANY point of the start-up, section 5, and at ANY point of an
+Exec - ReleaseTerminal, the external command, RestoreTerminal, all on the event-loop goroutine -,
+section 6).
 
 Vocabulary (defined in `Tea/Proofs/Lifecycle.lean`, restated below by `rfl` theorems):
 * `Terminating s`   the context is cancelled, or the loop has exited, or a shutdown caller
@@ -35,12 +37,19 @@ Vocabulary (defined in `Tea/Proofs/Lifecycle.lean`, restated below by `rfl` theo
                     the hand-over of a message to a running loop and the returns of the API
                     callers (`sendAbort`, `waitReturn`) are NOT progress labels, so the
                     theorems say that Run's return needs the help of no other goroutine;
+                    the internal steps of an Exec on the loop's goroutine are progress labels too;
 * `startupReturn l` `l` is the return of user code Run calls while starting up (the writer of the
-                    mode sequences, Init, the first View); `scheduleLabel` = progress or that;
-* `rank s`          the amount of termination work left (a natural number).
+                    mode sequences, Init, the first View); `startupScheduleLabel` = progress or that;
+* `userReturn l`    `l` is the return of user code on a goroutine a shutdown depends on: filter /
+                    Update, View, the output writer, the start-up's user code, the command of an
+                    Exec; `scheduleLabel` = progress or that;
+* `rank s`          the amount of termination work left (a natural number); `pendW s` (0, 1 or 2)
+                    counts the user code in progress on the loop (or still to be entered by the Exec
+                    in progress) and on the listen goroutine.
 Only property theorems live here; helper lemmas are in `Tea/Proofs/Lifecycle.lean` (induction
 principle, invariants, stability), `Tea/Proofs/LifecycleRank.lean` (rank, no deadlock) and
-`Tea/Proofs/LifecycleStartup.lean` (strikes and failures during the start-up).
+`Tea/Proofs/LifecycleStartup.lean` (strikes and failures during the start-up),
+`Tea/Proofs/LifecycleExec.lean` (Exec: the round trip, strikes during an Exec).
 -/
 namespace Tea.Props.C04
 open Tea.Runtime.Life
@@ -53,7 +62,9 @@ theorem progressLabel_def (l : Label) : progressLabel l =
     | .elCtxExit | .elCmdAbort | .runTail | .shCancel _ | .shHandlers _ | .shReader _ | .shWaitRead _
     | .shWaitReadTimeout _ | .shRenderer _ | .shRestore _ | .runReturn | .dispExit | .sigExit | .sigAbort
     | .resizeExit | .initAbort | .readerMsgAbort | .readerErrAbort | .readerCanceled
-    | .suSigHandler | .suNewRenderer | .suStartRenderer | .suSpawnInit | .suOpenReader | .suSpawnHandlers => true
+    | .suSigHandler | .suNewRenderer | .suStartRenderer | .suSpawnInit | .suOpenReader | .suSpawnHandlers
+    | .exRelCancel | .exRelWaitRead | .exRelWaitTimeout | .exRelRenderer | .exRelRestore
+    | .exResReader | .exResRenderer | .exResSpawn => true
     | _ => false := by
   cases l <;> rfl
 
@@ -64,24 +75,47 @@ theorem startupReturn_def (l : Label) : startupReturn l =
     | _ => false := by
   cases l <;> rfl
 
-/-- the alphabet of the schedules that bring Run to its return -/
-theorem scheduleLabel_def (l : Label) : scheduleLabel l = (progressLabel l || startupReturn l) := rfl
-
-/-- the progress steps after which Run is inside user code of its start-up -/
-theorem entersStartupCode_def (l : Label) : entersStartupCode l =
+/-- the returns of user code on the goroutines a shutdown depends on -/
+theorem userReturn_def (l : Label) : userReturn l =
     match l with
-    | .suNewRenderer | .suStartRenderer | .suSpawnInit => true
+    | .callbackReturns | .viewReturns | .writerReturns | .startWriterReturns | .initReturns
+    | .firstViewReturns | .execCmdReturns => true
     | _ => false := by
   cases l <;> rfl
 
-/-- `NoCallback` without the clauses about Run's start-up; `NoCallback` is this and "Run is not
-inside the writer of the mode sequences, Init or the first View" -/
+/-- the alphabet of the schedules that bring Run to its return -/
+theorem scheduleLabel_def (l : Label) : scheduleLabel l = (progressLabel l || userReturn l) := rfl
+
+/-- the alphabet that suffices outside an Exec when no user code is in progress on the loop or the
+listen goroutine -/
+theorem startupScheduleLabel_def (l : Label) :
+    startupScheduleLabel l = (progressLabel l || startupReturn l) := rfl
+
+/-- the progress steps after which a goroutine is inside user code: Run inside the user code of its
+start-up; the loop waiting for the command of an Exec, inside Update with the execMsg -/
+theorem entersUserCode_def (l : Label) : entersUserCode l =
+    match l with
+    | .suNewRenderer | .suStartRenderer | .suSpawnInit | .exRelRestore | .exResSpawn => true
+    | _ => false := by
+  cases l <;> rfl
+
+/-- `NoCallback` without the clauses about Run's start-up and the command of an Exec; `NoCallback`
+is this and "Run is not inside the writer of the mode sequences, Init or the first View" and "the
+loop is not waiting for the command of an Exec" -/
 theorem loopQuiet_def (s : St) :
     LoopQuiet s = (s.el ≠ .callback ∧ s.el ≠ .view ∧ s.listen ≠ .flushing) := rfl
 
 theorem noCallback_def (s : St) : NoCallback s ↔ (LoopQuiet s ∧
-    ¬ (s.runPc = .starting .modeWrites ∨ s.runPc = .starting .initCall ∨ s.runPc = .starting .firstView)) :=
+    ¬ (s.runPc = .starting .modeWrites ∨ s.runPc = .starting .initCall ∨ s.runPc = .starting .firstView) ∧
+    s.el ≠ .execCmd) :=
   noCallback_iff s
+
+/-- the loop is inside an Exec -/
+theorem inExec_def (e : ElPc) : e.inExec =
+    match e with
+    | .execRelease _ | .execCmd | .execRestore _ => true
+    | _ => false := by
+  cases e <;> rfl
 
 /-- every progress label is an internal step of the runtime: none is an action of the
 environment or of user code -/
@@ -89,11 +123,37 @@ theorem progressLabel_isLifecycle (l : Label) (h : progressLabel l = true) : l.i
   progress_isLifecycle l h
 
 /-- the rank: steps left for Run itself (the stages of its start-up, leave the loop, the phases of
-shutdown, return), the phases left for every other shutdown caller, and one for the loop, the
-dispatcher, every handler goroutine and the read loop while they have not exited -/
+shutdown, return), the phases left for every other shutdown caller, one for the loop (more inside
+an Exec), the dispatcher, every handler goroutine and the read loop while they have not exited, and
+sixteen for every Exec message the loop has not received yet -/
 theorem rank_def (s : St) : rank s =
     runW s + killersW s.killers + elW s.el + (if s.dispAlive = true then 1 else 0) + sigW s.sig
-      + hW s.resize + hW s.initG + readW s.reader := rfl
+      + hW s.resize + hW s.initG + readW s.reader + sendersW s.senders := rfl
+
+/-- the loop's share: one until it has exited; inside an Exec two per remaining phase on top -/
+theorem elW_def (e : ElPc) : elW e =
+    match e with
+    | .exited _ => 0
+    | .execRelease .cancelReader => 17 | .execRelease .waitRead => 15 | .execRelease .renderer => 13
+    | .execRelease .restore => 11 | .execCmd => 9
+    | .execRestore .reader => 7 | .execRestore .renderer => 5 | .execRestore .spawn => 3
+    | _ => 1 := by
+  cases e <;> first | rfl | (rename_i ph; cases ph <;> rfl)
+
+/-- an Exec message the loop has not received yet weighs what its Exec will add to the loop's share
+(sixteen); every other caller nothing -/
+theorem sendersW_def (ss : List Caller) : sendersW ss =
+    (ss.map (fun c => match c.kind, c.pc with
+      | .exec, .returned => 0
+      | .exec, _ => 16
+      | _, _ => 0)).sum := rfl
+
+/-- user code in progress (or to be entered by the Exec in progress): what a schedule needs on top
+of the rank -/
+theorem pendW_def (s : St) : pendW s =
+    (match s.el with
+      | .callback | .view | .execRelease _ | .execCmd | .execRestore _ => 1
+      | _ => 0) + (if s.listen = .flushing then 1 else 0) := rfl
 
 /-- Run's share: four per remaining stage of the start-up (a stage spawns at most three goroutines)
 on top of the eight of the loop; the phases of its shutdown plus one in the tail -/
@@ -140,12 +200,30 @@ theorem C04_stuck_means_returned (c : Config) (s : St) (hr : Reachable c s) (ht 
   rw [hstuck l hp] at he
   cases he
 
+/- FALSE in the model with Exec (the previous round's statement; `scheduleLabel` was progress ∪ returns
+of the start-up's user code):
+
+    theorem C04_no_deadlock_startup (c : Config) (s : St) (hr : Reachable c s) (ht : Terminating s)
+        (hn : s.runPc ≠ .returned) (hq : LoopQuiet s) :
+        ∃ l, startupScheduleLabel l = true ∧ (step s l).isSome = true
+
+  counterexample: the loop waits for the command of an Exec (`el = .execCmd`: `LoopQuiet` holds), the
+  context is cancelled and everybody else is done: the only enabled step is `execCmdReturns`. -/
+
 /-- the same when Run may be INSIDE the user code of its start-up (the writer of the mode sequences,
-Init, the first View): then that code's return is the enabled step -/
-theorem C04_no_deadlock_startup (c : Config) (s : St) (hr : Reachable c s) (ht : Terminating s)
-    (hn : s.runPc ≠ .returned) (hq : LoopQuiet s) :
+Init, the first View), the loop being outside an Exec: then that code's return is the enabled step -/
+theorem C04_no_deadlock_startup_partial (c : Config) (s : St) (hr : Reachable c s) (ht : Terminating s)
+    (hn : s.runPc ≠ .returned) (hq : LoopQuiet s) (hex : s.el.inExec = false) :
+    ∃ l, startupScheduleLabel l = true ∧ (step s l).isSome = true :=
+  no_deadlock_startup hr ht hn hq hex
+
+/-- NO DEADLOCK, WHATEVER IS IN PROGRESS. In EVERY reachable state in which termination has begun and
+Run has not returned, a progress step or the return of user code in progress (Update, View, the
+writer, the start-up's user code, the command of an Exec) is enabled. -/
+theorem C04_no_deadlock_any (c : Config) (s : St) (hr : Reachable c s) (ht : Terminating s)
+    (hn : s.runPc ≠ .returned) :
     ∃ l, scheduleLabel l = true ∧ (step s l).isSome = true :=
-  no_deadlock_schedule hr ht hn hq
+  no_deadlock_schedule hr ht hn
 
 /-! ### 2. ... and it comes after a bounded number of steps -/
 
@@ -155,9 +233,15 @@ theorem C04_bounded (s s' : St) (l : Label) (hp : progressLabel l = true)
   rank_decreases hp hs
 
 /-- ... and so does every return of the user code of the start-up -/
-theorem C04_bounded_startup (s s' : St) (l : Label) (hp : scheduleLabel l = true)
+theorem C04_bounded_startup (s s' : St) (l : Label) (hp : startupScheduleLabel l = true)
     (hs : step s l = some s') : rank s' < rank s :=
-  rank_decreases_schedule hp hs
+  rank_decreases_startup hp hs
+
+/-- ... and every step of a schedule - the returns of Update, View, the writer and the command of
+an Exec included - strictly decreases the rank plus the user code in progress -/
+theorem C04_bounded_schedule (s s' : St) (l : Label) (hp : scheduleLabel l = true)
+    (hs : step s l = some s') : rank s' + pendW s' < rank s + pendW s :=
+  sched_decreases hp hs
 
 /-- no other step of anybody - user code returning or panicking, signals, input, ticks, API
 calls, parent cancellation, message hand-overs - increases the rank, except a new
@@ -181,7 +265,8 @@ theorem C04_terminating_stable (s s' : St) (ls : List Label) (h : runLabels s ls
     (ht : Terminating s) : Terminating s' :=
   terminating_runLabels ls h ht
 
-/- FALSE in the extended model (three steps of Run's start-up END inside user code):
+/- FALSE in the extended model (three steps of Run's start-up and two steps of an Exec END inside user
+code):
 
     theorem C04_progress_starts_no_callback (s s' : St) (l : Label) (hp : progressLabel l = true)
         (hs : step s l = some s') (hc : NoCallback s) : NoCallback s'
@@ -189,57 +274,80 @@ theorem C04_terminating_stable (s s' : St) (ls : List Label) (h : runLabels s ls
   counterexample: `init0 c`, `suSigHandler`, then `l = suNewRenderer`: the state before is at stage
   `newRenderer` (`NoCallback`), the state after at stage `modeWrites` (inside the user's writer). -/
 
-/-- progress steps start no user code - except the three steps of the start-up after which Run is,
-by construction, inside the writer of the mode sequences, Init, the first View -/
+/-- progress steps start no user code - except the steps after which, by construction, Run is inside
+the writer of the mode sequences, Init, the first View, or the loop waits for the command of an Exec
+/ is inside Update with the execMsg -/
 theorem C04_progress_starts_no_callback_partial (s s' : St) (l : Label) (hp : progressLabel l = true)
-    (hne : entersStartupCode l = false)
+    (hne : entersUserCode l = false)
     (hs : step s l = some s') (hc : NoCallback s) : NoCallback s' :=
   noCallback_progress hp hne hs hc
 
-/-- ... no step of a schedule (progress steps, returns of the start-up's user code) starts user code on
-the loop or the listen goroutine; and once the start-up is over no progress step starts any -/
+/-- ... no step of a schedule (progress steps, returns of user code) starts user code on the loop or
+the listen goroutine, except the last step of an Exec (`exResSpawn`: Update receives the execMsg);
+and once the start-up is over and the loop is outside an Exec no progress step starts any -/
 theorem C04_schedule_starts_no_loop_callback (s s' : St) (l : Label) (hp : scheduleLabel l = true)
-    (hs : step s l = some s') (hq : LoopQuiet s) : LoopQuiet s' :=
-  loopQuiet_schedule hp hs hq
+    (hne : l ≠ .exResSpawn) (hs : step s l = some s') (hq : LoopQuiet s) : LoopQuiet s' :=
+  loopQuiet_schedule hp hne hs hq
 
 theorem C04_progress_starts_no_callback_after_startup (s s' : St) (l : Label)
     (hp : progressLabel l = true) (hs : step s l = some s') (hpast : ∀ p, s.runPc ≠ .starting p)
-    (hc : NoCallback s) : NoCallback s' ∧ ∀ p, s'.runPc ≠ .starting p :=
-  noCallback_progress_past hp hs hpast hc
+    (hex : s.el.inExec = false) (hc : NoCallback s) :
+    NoCallback s' ∧ (∀ p, s'.runPc ≠ .starting p) ∧ s'.el.inExec = false :=
+  noCallback_progress_past hp hs hpast hex hc
 
-/- FALSE in the extended model (a Run that is starting up still has Init and the first View to call):
+/- FALSE in the extended model (a Run that is starting up still has Init and the first View to call; a
+loop that is inside an Exec still has the command to wait for and Update to call):
 
     theorem C04_run_returns (c : Config) (s : St) (hr : Reachable c s) (ht : Terminating s)
         (hc : NoCallback s) :
         ∃ ls s', (∀ l ∈ ls, progressLabel l = true) ∧ ls.length ≤ rank s ∧ runLabels s ls = some s' ∧
           s'.runPc = .returned
 
-  counterexample: `init0 c`, `killCall`: reachable, terminating, no callback in progress (stage
-  `sigHandler`); after `suSigHandler`, `suNewRenderer` Run is inside the user's writer, which only the
-  external `startWriterReturns` ends: no schedule of progress labels reaches Run's return. -/
+  counterexamples: `init0 c`, `killCall` (stage `sigHandler`: after `suSigHandler`, `suNewRenderer` Run
+  is inside the user's writer, which only the external `startWriterReturns` ends); and, in the loop:
+  an Exec message is received, `exRelCancel`, `killCall`: no callback is in progress, but after
+  `exRelRestore` the loop waits for the command, which only the external `execCmdReturns` ends.
 
-/-- RUN RETURNS. From every reachable state in which termination has begun and no user
-callback is in progress on the loop or the listen goroutine - Run may be at ANY stage of its
-start-up, inside its user code or not -, there is a schedule of at most `rank s` steps, every one
-enabled in turn, at the end of which Run has returned; the steps are progress steps (no help from
-the environment, Send callers or waiters) and, while Run is starting up, the returns of the user code
-Run calls there (the writer of the mode sequences, Init, the first View). With `C04_no_deadlock`
-(such a step exists as long as Run has not returned), `C04_bounded` (each one consumes rank) and
-`C04_rank_never_increases` (nobody but a new Kill() gives rank back) this is: Run returns as
-soon as any in-progress callback returns. -/
-theorem C04_run_returns_partial (c : Config) (s : St) (hr : Reachable c s) (ht : Terminating s)
-    (hq : LoopQuiet s) :
-    ∃ ls s', (∀ l ∈ ls, scheduleLabel l = true) ∧ ls.length ≤ rank s ∧ runLabels s ls = some s' ∧
+  Also FALSE now, the previous round's variant (`scheduleLabel` was progress ∪ start-up returns):
+
+    theorem C04_run_returns_partial (c : Config) (s : St) (hr : Reachable c s) (ht : Terminating s)
+        (hq : LoopQuiet s) :
+        ∃ ls s', (∀ l ∈ ls, startupScheduleLabel l = true) ∧ ls.length ≤ rank s ∧
+          runLabels s ls = some s' ∧ s'.runPc = .returned
+
+  by the second counterexample; it holds outside an Exec (`C04_run_returns_outside_exec`). -/
+
+/-- RUN RETURNS. From EVERY reachable state in which termination has begun - Run at any stage of
+its start-up, the loop at any point of an Exec, user code in progress anywhere - there is a
+schedule of at most `rank s + pendW s` steps, every one enabled in turn, at the end of which Run has
+returned; the steps are progress steps (no help from the environment, Send callers or waiters)
+and the returns of user code: the one in progress, and the ones a Run that is starting up / a loop
+that is inside an Exec has yet to call (Init, the first View; the command, Update). With
+`C04_no_deadlock_any` (such a step exists as long as Run has not returned), `C04_bounded_schedule`
+(each one consumes) and `C04_rank_never_increases` (nobody but a new Kill() gives rank back) this
+is: Run returns as soon as any in-progress callback returns. -/
+theorem C04_run_returns_partial (c : Config) (s : St) (hr : Reachable c s) (ht : Terminating s) :
+    ∃ ls s', (∀ l ∈ ls, scheduleLabel l = true) ∧ ls.length ≤ rank s + pendW s ∧
+      runLabels s ls = some s' ∧ s'.runPc = .returned :=
+  run_returns hr ht
+
+/-- ... when the loop is outside an Exec and no user code is in progress on the loop or the listen
+goroutine (Run at any stage of its start-up): at most `rank s` steps, progress steps and the returns
+of the start-up's user code -/
+theorem C04_run_returns_outside_exec (c : Config) (s : St) (hr : Reachable c s) (ht : Terminating s)
+    (hq : LoopQuiet s) (hex : s.el.inExec = false) :
+    ∃ ls s', (∀ l ∈ ls, startupScheduleLabel l = true) ∧ ls.length ≤ rank s ∧ runLabels s ls = some s' ∧
       s'.runPc = .returned :=
-  run_returns hr ht hq
+  run_returns_quiet hr ht hq hex
 
-/-- ... and once the start-up is over (Run is in its loop or its tail) progress steps ALONE do it:
-the theorem of the model that began at the loop is the special case "not starting up" -/
+/-- ... and once the start-up is over (Run is in its loop or its tail), the loop being outside an
+Exec, progress steps ALONE do it: the theorem of the model that began at the loop and had no Exec is
+the special case "neither starting up nor inside an Exec" -/
 theorem C04_run_returns_after_startup (c : Config) (s : St) (hr : Reachable c s) (ht : Terminating s)
-    (hc : NoCallback s) (hpast : ∀ p, s.runPc ≠ .starting p) :
+    (hc : NoCallback s) (hpast : ∀ p, s.runPc ≠ .starting p) (hex : s.el.inExec = false) :
     ∃ ls s', (∀ l ∈ ls, progressLabel l = true) ∧ ls.length ≤ rank s ∧ runLabels s ls = some s' ∧
       s'.runPc = .returned :=
-  run_returns_past hr ht hc hpast
+  run_returns_past hr ht hc hpast hex
 
 /-- KILL() RETURNS TOO. The same for the other callers of shutdown: a Kill() (or a panic handler
 on a command goroutine) that has not finished its shutdown is never blocked when no callback
@@ -258,13 +366,22 @@ theorem C04_kill_not_blocked (c : Config) (s : St) (hr : Reachable c s) (hc : No
 
   counterexample: `init0 c`, `killCall` (see `C04_run_returns`). -/
 
-/-- ... and at most `rank s` steps (progress steps, returns of the start-up's user code) lead to a
-state in which EVERY shutdown call has completed: Run has returned (if termination had begun) and
-every Kill() has finished. -/
-theorem C04_everybody_done_partial (c : Config) (s : St) (hr : Reachable c s) (hq : LoopQuiet s) :
-    ∃ ls s', (∀ l ∈ ls, scheduleLabel l = true) ∧ ls.length ≤ rank s ∧ runLabels s ls = some s' ∧
+/-- ... and at most `rank s + pendW s` steps (progress steps, returns of user code) lead from EVERY
+reachable state to a state in which EVERY shutdown call has completed: Run has returned (if
+termination had begun) and every Kill() has finished. -/
+theorem C04_everybody_done_partial (c : Config) (s : St) (hr : Reachable c s) :
+    ∃ ls s', (∀ l ∈ ls, scheduleLabel l = true) ∧ ls.length ≤ rank s + pendW s ∧
+      runLabels s ls = some s' ∧
       (Terminating s → s'.runPc = .returned) ∧ (∀ (j : Nat) (ph : ShPhase), s'.killers[j]? = some ph → ph = .done) :=
-  everybody_done hr hq
+  everybody_done hr
+
+/-- ... outside an Exec with no user code in progress on the loop or the listen goroutine: at most
+`rank s` steps, progress steps and returns of the start-up's user code -/
+theorem C04_everybody_done_outside_exec (c : Config) (s : St) (hr : Reachable c s) (hq : LoopQuiet s)
+    (hex : s.el.inExec = false) :
+    ∃ ls s', (∀ l ∈ ls, startupScheduleLabel l = true) ∧ ls.length ≤ rank s ∧ runLabels s ls = some s' ∧
+      (Terminating s → s'.runPc = .returned) ∧ (∀ (j : Nat) (ph : ShPhase), s'.killers[j]? = some ph → ph = .done) :=
+  everybody_done_quiet hr hq hex
 
 /-! ### 3. the error -/
 
@@ -421,7 +538,7 @@ included), each enabled in turn - brings Run to its return, with ErrProgramKille
 theorem C04_kill_during_startup (c : Config) (k : Nat) :
     ∃ s, runLabels (init0 c) (startupSchedule.take k) = some s ∧
       ∃ s1, step s .killCall = some s1 ∧
-        ∃ ls s', (∀ l ∈ ls, scheduleLabel l = true) ∧ ls.length ≤ rank s1 ∧
+        ∃ ls s', (∀ l ∈ ls, startupScheduleLabel l = true) ∧ ls.length ≤ rank s1 ∧
           runLabels s1 ls = some s' ∧ s'.runPc = .returned ∧ s'.runErr = .killed :=
   strike_during_startup c k .killCall rfl
 
@@ -429,7 +546,7 @@ theorem C04_kill_during_startup (c : Config) (k : Nat) :
 theorem C04_cancel_during_startup (c : Config) (k : Nat) :
     ∃ s, runLabels (init0 c) (startupSchedule.take k) = some s ∧
       ∃ s1, step s .parentCancel = some s1 ∧
-        ∃ ls s', (∀ l ∈ ls, scheduleLabel l = true) ∧ ls.length ≤ rank s1 ∧
+        ∃ ls s', (∀ l ∈ ls, startupScheduleLabel l = true) ∧ ls.length ≤ rank s1 ∧
           runLabels s1 ls = some s' ∧ s'.runPc = .returned ∧ s'.runErr = .killed :=
   strike_during_startup c k .parentCancel rfl
 
@@ -499,14 +616,17 @@ theorem C04_startup_kill_error_partial (c : Config) (s : St) (hr : Reachable c s
   refine ⟨h, ?_⟩
   rcases h with h | ⟨h, _⟩ | ⟨h, _⟩ | ⟨h, _⟩ <;> rw [h] <;> decide
 
-/-- THE TERMINAL MODES ARE RESTORED AFTER A STRIKE DURING THE START-UP. `modesDirty` says that mode
-sequences (alt screen, mouse, bracketed paste, focus) were written after the last
-`restoreTerminalState`.  A Kill() that strikes early restores BEFORE Run writes them (its restore
-is then too early to undo them); yet for every interleaving with any number of killers: (1) when
-Run returns through `runReturn` nothing is outstanding - Run's own restore is the last writer of
-Run's goroutine -; (2) nothing is outstanding in ANY reachable state in which Run has returned (after
-a failed `initTerminal` nothing had been written) and (3) in any state that follows. -/
-theorem C04_restored_after_startup_strike (c : Config) (s : St) (hr : Reachable c s) :
+/-- THE TERMINAL MODES ARE RESTORED WHEN RUN RETURNS. `modesDirty` says that mode sequences (alt
+screen, mouse, bracketed paste, focus) were written after the last `restoreTerminalState`: by the
+start-up, or by the RestoreTerminal of an Exec.  A Kill() that strikes early restores BEFORE Run
+writes them; a Kill() that strikes during an Exec restores before the Exec's RestoreTerminal writes
+them AGAIN (its restore is then too early to undo them); yet for every interleaving with any number
+of killers, wherever the cause struck - during the start-up, during an Exec, in the loop -: (1) when
+Run returns through `runReturn` nothing is outstanding - Run's own restore comes after the end of
+the loop, hence after every write of an Exec, and is the last writer -; (2) nothing is outstanding
+in ANY reachable state in which Run has returned (after a failed `initTerminal` nothing had been
+written) and (3) in any state that follows. -/
+theorem C04_exec_restored_at_return (c : Config) (s : St) (hr : Reachable c s) :
     (∀ s', step s .runReturn = some s' → s'.modesDirty = false) ∧
     (s.runPc = .returned → s.modesDirty = false) ∧
     (s.runPc = .returned → ∀ ls s', runLabels s ls = some s' → s'.runPc = .returned ∧ s'.modesDirty = false) := by
@@ -518,6 +638,14 @@ theorem C04_restored_after_startup_strike (c : Config) (s : St) (hr : Reachable 
     · cases hs
   · have hret' := returned_runLabels ls hrun hret
     exact ⟨hret', (inv_modes (reachable_runLabels ls hr hrun)).returned hret'⟩
+
+/-- the statement of the start-up round, a corollary (the same statement: `Reachable` now ranges over
+the schedules with Execs as well) -/
+theorem C04_restored_after_startup_strike (c : Config) (s : St) (hr : Reachable c s) :
+    (∀ s', step s .runReturn = some s' → s'.modesDirty = false) ∧
+    (s.runPc = .returned → s.modesDirty = false) ∧
+    (s.runPc = .returned → ∀ ls s', runLabels s ls = some s' → s'.runPc = .returned ∧ s'.modesDirty = false) :=
+  C04_exec_restored_at_return c s hr
 
 /-- NO HAND-OVER WITHOUT A LISTENER. `shRenderer` is `halt()` (inside `renderer.stop()` / `kill()`).
 Whoever has reached the renderer phase of its shutdown - Run itself or a Kill() - NEVER waits there
@@ -543,7 +671,73 @@ theorem C04_no_handover_without_listener (c : Config) (s : St) (hr : Reachable c
   have hb' : p.beforeStart = true := by rcases hb with h | h | h | h <;> rw [h] <;> rfl
   exact ⟨(inv_start hr).early p hp hb', shRenderer_enabled_early hr p hp hb' who hph⟩
 
-/-! ### 6. non-vacuity -/
+/-! ### 6. an Exec in progress: strikes while the terminal is released -/
+
+/-- the fault-free Exec of the message of sender `e` -/
+theorem execSchedule_def (e : Nat) (wait : Label) : execSchedule e wait =
+    [.elRecvSender e, .exRelCancel, wait, .exRelRenderer, .exRelRestore, .execCmdReturns, .exResReader,
+     .exResRenderer, .exResSpawn] := rfl
+
+/-- KILL() DURING AN EXEC. In every reachable state with the loop at its `select` and an Exec message
+(sender `e`) to receive, start the fault-free Exec schedule - the wait for the read loop ending by
+the 500 ms timeout or by the read loop's exit -; after ANY prefix of it that can be run (`k = 0`:
+before the message is received; `1..4`: inside ReleaseTerminal; `5`: the command runs; `6..8`:
+inside RestoreTerminal; `9`: Update has the execMsg) a Kill() (or a panic handler on a command
+goroutine) is enabled, and after it a schedule of at most `rank + pendW` steps - progress steps and
+the returns of the user code in progress or still to be called (the command, Update), each enabled
+in turn - brings Run to its return, with ErrProgramKilled and no mode sequence outstanding. -/
+theorem C04_kill_during_exec (c : Config) (s : St) (hr : Reachable c s) (hsel : s.el = .select)
+    (e : Nat) (cl : Caller) (he : s.senders[e]? = some cl) (hk : cl.kind = .exec)
+    (wait : Label) (hw : wait = .exRelWaitTimeout ∨ wait = .exRelWaitRead) (k : Nat) (sk : St)
+    (hrun : runLabels s ((execSchedule e wait).take k) = some sk) :
+    ∃ s1, step sk .killCall = some s1 ∧
+      ∃ ls s', (∀ l ∈ ls, scheduleLabel l = true) ∧ ls.length ≤ rank s1 + pendW s1 ∧
+        runLabels s1 ls = some s' ∧ s'.runPc = .returned ∧ s'.runErr = .killed ∧
+        s'.modesDirty = false := by
+  obtain ⟨s1, h1, ls, s', a, b, c', d, e'⟩ := strike_during_exec hr hsel he hk wait hw k hrun .killCall rfl
+  have hr' := reachable_runLabels ls (Reachable.step _ (reachable_runLabels _ hr hrun) h1) c'
+  exact ⟨s1, h1, ls, s', a, b, c', d, e', (inv_modes hr').returned d⟩
+
+/-- CANCELLATION DURING AN EXEC. The same for the cancellation of the supplied context. -/
+theorem C04_cancel_during_exec (c : Config) (s : St) (hr : Reachable c s) (hsel : s.el = .select)
+    (e : Nat) (cl : Caller) (he : s.senders[e]? = some cl) (hk : cl.kind = .exec)
+    (wait : Label) (hw : wait = .exRelWaitTimeout ∨ wait = .exRelWaitRead) (k : Nat) (sk : St)
+    (hrun : runLabels s ((execSchedule e wait).take k) = some sk) :
+    ∃ s1, step sk .parentCancel = some s1 ∧
+      ∃ ls s', (∀ l ∈ ls, scheduleLabel l = true) ∧ ls.length ≤ rank s1 + pendW s1 ∧
+        runLabels s1 ls = some s' ∧ s'.runPc = .returned ∧ s'.runErr = .killed ∧
+        s'.modesDirty = false := by
+  obtain ⟨s1, h1, ls, s', a, b, c', d, e'⟩ :=
+    strike_during_exec hr hsel he hk wait hw k hrun .parentCancel rfl
+  have hr' := reachable_runLabels ls (Reachable.step _ (reachable_runLabels _ hr hrun) h1) c'
+  exact ⟨s1, h1, ls, s', a, b, c', d, e', (inv_modes hr').returned d⟩
+
+/-- ... and every prefix of the Exec schedule CAN be run when the message is waiting in Send and the
+renderer is listening (`C17_lts_exec_roundtrip` in Tea/Props/C17.lean says what each point looks like) -/
+theorem C04_exec_schedule_enabled (c : Config) (s : St) (hr : Reachable c s) (hsel : s.el = .select)
+    (hli : s.listen = .idle) (e : Nat) (cl : Caller) (he : s.senders[e]? = some cl)
+    (hk : cl.kind = .exec) (hb : cl.pc = .blocked) (k : Nat) :
+    ∃ sk, runLabels s ((execSchedule e).take k) = some sk := by
+  obtain ⟨_, sf, _, _, hrun, _, _⟩ := exec_roundtrip hr hsel hli he hk hb
+  obtain ⟨sk, a, _⟩ := runLabels_take _ hrun k
+  exact ⟨sk, a⟩
+
+/-- the panic of the command of an Exec is a panic on the loop's goroutine: ErrProgramKilled -/
+theorem C04_exec_panic (c : Config) (s s' : St) (hr : Reachable c s) (hs : step s .execCmdPanics = some s') :
+    s'.el = .exited .panic ∧ Terminating s' ∧
+    ∀ ls s'', runLabels s' ls = some s'' → s''.runPc ≠ .loop → s''.runErr = .killed := by
+  have hel : s'.el = .exited .panic := by
+    simp only [step] at hs
+    split at hs
+    · cases hs; rfl
+    · cases hs
+  refine ⟨hel, Or.inr (Or.inl ⟨_, hel⟩), fun ls s'' hrun hnl => ?_⟩
+  have hr'' := reachable_runLabels ls (Reachable.step _ hr hs) hrun
+  have hel'' : s''.el = .exited .panic := el_exited_runLabels ls hrun hel
+  obtain ⟨b, h2, _⟩ := err_of_exited hr'' hnl hel''
+  exact h2
+
+/-! ### 7. non-vacuity -/
 
 /-- a program with a signal handler, a resize listener, a cancelable input, one user Send and
 one Quit() caller, and two Wait callers -/
@@ -613,7 +807,7 @@ example : (runLabels (init cfg) [.readEOF]).map (fun s => (s.el, s.ctxDone, s.ru
     (runLabels (init cfg) [.readEOF, .runTail]).isSome = false := by
   decide
 
-/-! ### 7. non-vacuity: the start-up -/
+/-! ### 8. non-vacuity: the start-up -/
 
 /-- a program with a cancelable input, an Init command, a signal handler and a resize listener -/
 def cfgS : Config :=
@@ -876,7 +1070,441 @@ example :
       = some (.starting .modeWrites, true) := by
   decide
 
-/-! ### 7. the trace checker of the `ltrace` correspondence stream is sound
+/-! ### 9. non-vacuity: strikes during an Exec -/
+
+/-- a program with an input (cancelable or not), a signal handler, a resize listener, an Exec message
+and a Quit() caller -/
+def cfgE (cancelable : Bool) : Config :=
+  { cancelable := cancelable, withSignalHandler := true, ignoreSignals := false, withResize := true,
+    withInitCmd := false, withInput := true, senders := [.exec, .quit], waiters := 0 }
+
+/-- the Exec with a cancelable input: the read loop leaves at the Cancel(), ReleaseTerminal's wait
+ends by its exit -/
+def execRunC : List Label :=
+  [.elRecvSender 0, .exRelCancel, .readerCanceled, .exRelWaitRead, .exRelRenderer, .exRelRestore,
+   .execCmdReturns, .exResReader, .exResRenderer, .exResSpawn]
+
+/-- the fault-free Exec of both programs; with the input that cannot be cancelled the old read loop
+outlives the 500 ms and is leaked -/
+example :
+    (runLabels (init (cfgE true)) (.sendCall 0 :: execRunC)).map
+      (fun s => (s.el, s.reader, s.listen, s.ignoreSignals, s.leakedReaders)) =
+      some (.callback, .reading, .idle, false, 0) ∧
+    (runLabels (init (cfgE false)) (.sendCall 0 :: execSchedule 0)).map
+      (fun s => (s.el, s.reader, s.listen, s.ignoreSignals, s.leakedReaders)) =
+      some (.callback, .reading, .idle, false, 1) := by decide
+
+/-! Kill() at every point of the Exec, cancelable input.  Kill's own shutdown runs to its end at
+once (it cancels the reader and halts the renderer itself if the Exec has not yet, and restores);
+the loop goes on with its Exec - the command returns, RestoreTerminal starts a NEW read loop, the
+renderer again, writes the mode sequences again -, Update returns, the loop sees the cancelled
+context; Run's own shutdown stops all that again and restores: ErrProgramKilled, nothing outstanding. -/
+
+/-- Kill() after 0 steps of the Exec (`el = .select`) -/
+example : (runLabels (init (cfgE true)) (.sendCall 0 :: (execRunC).take 0)).map (·.el) = some (.select) ∧
+    (runLabels (init (cfgE true)) (.sendCall 0 :: (execRunC).take 0 ++ .killCall ::
+     [.shCancel (some 0), .sigExit, .resizeExit, .dispExit, .shHandlers (some 0),
+      .shReader (some 0), .readerCanceled, .shRenderer (some 0), .shRestore (some 0), .elCtxExit,
+      .runTail, .shCancel none, .shHandlers none, .shReader none, .shRenderer none,
+      .shRestore none, .runReturn])).map obsS
+    = some (.returned, .killed, 2, false) := by decide
+
+/-- Kill() after 1 steps of the Exec (`el = .execRelease (.cancelReader)`) -/
+example : (runLabels (init (cfgE true)) (.sendCall 0 :: (execRunC).take 1)).map (·.el) = some (.execRelease (.cancelReader)) ∧
+    (runLabels (init (cfgE true)) (.sendCall 0 :: (execRunC).take 1 ++ .killCall ::
+     [.shCancel (some 0), .sigExit, .resizeExit, .dispExit, .shHandlers (some 0),
+      .shReader (some 0), .readerCanceled, .shRenderer (some 0), .shRestore (some 0), .exRelCancel,
+      .exRelWaitRead, .exRelRenderer, .exRelRestore, .execCmdReturns, .exResReader, .exResRenderer,
+      .exResSpawn, .callbackReturns, .elCmdAbort, .runTail, .shCancel none, .shHandlers none,
+      .shReader none, .readerCanceled, .shRenderer none, .shRestore none, .runReturn])).map obsS
+    = some (.returned, .killed, 3, false) := by decide
+
+/-- Kill() after 2 steps of the Exec (`el = .execRelease (.waitRead)`) -/
+example : (runLabels (init (cfgE true)) (.sendCall 0 :: (execRunC).take 2)).map (·.el) = some (.execRelease (.waitRead)) ∧
+    (runLabels (init (cfgE true)) (.sendCall 0 :: (execRunC).take 2 ++ .killCall ::
+     [.shCancel (some 0), .sigExit, .resizeExit, .dispExit, .readerCanceled, .shHandlers (some 0),
+      .shReader (some 0), .shRenderer (some 0), .shRestore (some 0), .exRelWaitRead,
+      .exRelRenderer, .exRelRestore, .execCmdReturns, .exResReader, .exResRenderer, .exResSpawn,
+      .callbackReturns, .elCmdAbort, .runTail, .shCancel none, .shHandlers none, .shReader none,
+      .readerCanceled, .shRenderer none, .shRestore none, .runReturn])).map obsS
+    = some (.returned, .killed, 3, false) := by decide
+
+/-- Kill() after 3 steps of the Exec (`el = .execRelease (.waitRead)`) -/
+example : (runLabels (init (cfgE true)) (.sendCall 0 :: (execRunC).take 3)).map (·.el) = some (.execRelease (.waitRead)) ∧
+    (runLabels (init (cfgE true)) (.sendCall 0 :: (execRunC).take 3 ++ .killCall ::
+     [.shCancel (some 0), .sigExit, .resizeExit, .dispExit, .shHandlers (some 0),
+      .shReader (some 0), .shRenderer (some 0), .shRestore (some 0), .exRelWaitRead,
+      .exRelRenderer, .exRelRestore, .execCmdReturns, .exResReader, .exResRenderer, .exResSpawn,
+      .callbackReturns, .elCmdAbort, .runTail, .shCancel none, .shHandlers none, .shReader none,
+      .readerCanceled, .shRenderer none, .shRestore none, .runReturn])).map obsS
+    = some (.returned, .killed, 3, false) := by decide
+
+/-- Kill() after 4 steps of the Exec (`el = .execRelease (.renderer)`) -/
+example : (runLabels (init (cfgE true)) (.sendCall 0 :: (execRunC).take 4)).map (·.el) = some (.execRelease (.renderer)) ∧
+    (runLabels (init (cfgE true)) (.sendCall 0 :: (execRunC).take 4 ++ .killCall ::
+     [.shCancel (some 0), .sigExit, .resizeExit, .dispExit, .shHandlers (some 0),
+      .shReader (some 0), .shRenderer (some 0), .shRestore (some 0), .exRelRenderer, .exRelRestore,
+      .execCmdReturns, .exResReader, .exResRenderer, .exResSpawn, .callbackReturns, .elCmdAbort,
+      .runTail, .shCancel none, .shHandlers none, .shReader none, .readerCanceled,
+      .shRenderer none, .shRestore none, .runReturn])).map obsS
+    = some (.returned, .killed, 3, false) := by decide
+
+/-- Kill() after 5 steps of the Exec (`el = .execRelease (.restore)`) -/
+example : (runLabels (init (cfgE true)) (.sendCall 0 :: (execRunC).take 5)).map (·.el) = some (.execRelease (.restore)) ∧
+    (runLabels (init (cfgE true)) (.sendCall 0 :: (execRunC).take 5 ++ .killCall ::
+     [.shCancel (some 0), .sigExit, .resizeExit, .dispExit, .shHandlers (some 0),
+      .shReader (some 0), .shRenderer (some 0), .shRestore (some 0), .exRelRestore,
+      .execCmdReturns, .exResReader, .exResRenderer, .exResSpawn, .callbackReturns, .elCmdAbort,
+      .runTail, .shCancel none, .shHandlers none, .shReader none, .readerCanceled,
+      .shRenderer none, .shRestore none, .runReturn])).map obsS
+    = some (.returned, .killed, 3, false) := by decide
+
+/-- Kill() after 6 steps of the Exec (`el = .execCmd`) -/
+example : (runLabels (init (cfgE true)) (.sendCall 0 :: (execRunC).take 6)).map (·.el) = some (.execCmd) ∧
+    (runLabels (init (cfgE true)) (.sendCall 0 :: (execRunC).take 6 ++ .killCall ::
+     [.shCancel (some 0), .sigExit, .resizeExit, .dispExit, .shHandlers (some 0),
+      .shReader (some 0), .shRenderer (some 0), .shRestore (some 0), .execCmdReturns, .exResReader,
+      .exResRenderer, .exResSpawn, .callbackReturns, .elCmdAbort, .runTail, .shCancel none,
+      .shHandlers none, .shReader none, .readerCanceled, .shRenderer none, .shRestore none,
+      .runReturn])).map obsS
+    = some (.returned, .killed, 3, false) := by decide
+
+/-- Kill() after 7 steps of the Exec (`el = .execRestore (.reader)`) -/
+example : (runLabels (init (cfgE true)) (.sendCall 0 :: (execRunC).take 7)).map (·.el) = some (.execRestore (.reader)) ∧
+    (runLabels (init (cfgE true)) (.sendCall 0 :: (execRunC).take 7 ++ .killCall ::
+     [.shCancel (some 0), .sigExit, .resizeExit, .dispExit, .shHandlers (some 0),
+      .shReader (some 0), .shRenderer (some 0), .shRestore (some 0), .exResReader, .exResRenderer,
+      .exResSpawn, .callbackReturns, .elCmdAbort, .runTail, .shCancel none, .shHandlers none,
+      .shReader none, .readerCanceled, .shRenderer none, .shRestore none, .runReturn])).map obsS
+    = some (.returned, .killed, 3, false) := by decide
+
+/-- Kill() after 8 steps of the Exec (`el = .execRestore (.renderer)`) -/
+example : (runLabels (init (cfgE true)) (.sendCall 0 :: (execRunC).take 8)).map (·.el) = some (.execRestore (.renderer)) ∧
+    (runLabels (init (cfgE true)) (.sendCall 0 :: (execRunC).take 8 ++ .killCall ::
+     [.shCancel (some 0), .sigExit, .resizeExit, .dispExit, .shHandlers (some 0),
+      .shReader (some 0), .readerCanceled, .shRenderer (some 0), .shRestore (some 0),
+      .exResRenderer, .exResSpawn, .callbackReturns, .elCmdAbort, .runTail, .shCancel none,
+      .shHandlers none, .shReader none, .shRenderer none, .shRestore none, .runReturn])).map obsS
+    = some (.returned, .killed, 3, false) := by decide
+
+/-- Kill() after 9 steps of the Exec (`el = .execRestore (.spawn)`) -/
+example : (runLabels (init (cfgE true)) (.sendCall 0 :: (execRunC).take 9)).map (·.el) = some (.execRestore (.spawn)) ∧
+    (runLabels (init (cfgE true)) (.sendCall 0 :: (execRunC).take 9 ++ .killCall ::
+     [.shCancel (some 0), .sigExit, .resizeExit, .dispExit, .shHandlers (some 0),
+      .shReader (some 0), .readerCanceled, .shRenderer (some 0), .shRestore (some 0), .exResSpawn,
+      .callbackReturns, .elCmdAbort, .runTail, .shCancel none, .shHandlers none, .shReader none,
+      .shRenderer none, .shRestore none, .runReturn])).map obsS
+    = some (.returned, .killed, 3, false) := by decide
+
+/-- Kill() after 10 steps of the Exec (`el = .callback`) -/
+example : (runLabels (init (cfgE true)) (.sendCall 0 :: (execRunC).take 10)).map (·.el) = some (.callback) ∧
+    (runLabels (init (cfgE true)) (.sendCall 0 :: (execRunC).take 10 ++ .killCall ::
+     [.shCancel (some 0), .sigExit, .resizeExit, .dispExit, .shHandlers (some 0),
+      .shReader (some 0), .readerCanceled, .shRenderer (some 0), .shRestore (some 0),
+      .callbackReturns, .elCmdAbort, .runTail, .shCancel none, .shHandlers none, .shReader none,
+      .shRenderer none, .shRestore none, .runReturn])).map obsS
+    = some (.returned, .killed, 3, false) := by decide
+
+/-! Kill() at every point of the Exec, input that cannot be cancelled (ReleaseTerminal's wait ends by
+the timeout). -/
+
+/-- Kill() after 0 steps of the Exec (`el = .select`) -/
+example : (runLabels (init (cfgE false)) (.sendCall 0 :: (execSchedule 0).take 0)).map (·.el) = some (.select) ∧
+    (runLabels (init (cfgE false)) (.sendCall 0 :: (execSchedule 0).take 0 ++ .killCall ::
+     [.shCancel (some 0), .sigExit, .resizeExit, .dispExit, .shHandlers (some 0),
+      .shReader (some 0), .shRenderer (some 0), .shRestore (some 0), .elCtxExit, .runTail,
+      .shCancel none, .shHandlers none, .shReader none, .shRenderer none, .shRestore none,
+      .runReturn])).map obsS
+    = some (.returned, .killed, 2, false) := by decide
+
+/-- Kill() after 1 steps of the Exec (`el = .execRelease (.cancelReader)`) -/
+example : (runLabels (init (cfgE false)) (.sendCall 0 :: (execSchedule 0).take 1)).map (·.el) = some (.execRelease (.cancelReader)) ∧
+    (runLabels (init (cfgE false)) (.sendCall 0 :: (execSchedule 0).take 1 ++ .killCall ::
+     [.shCancel (some 0), .sigExit, .resizeExit, .dispExit, .shHandlers (some 0),
+      .shReader (some 0), .shRenderer (some 0), .shRestore (some 0), .exRelCancel,
+      .exRelWaitTimeout, .exRelRenderer, .exRelRestore, .execCmdReturns, .exResReader,
+      .exResRenderer, .exResSpawn, .callbackReturns, .elCmdAbort, .runTail, .shCancel none,
+      .shHandlers none, .shReader none, .shRenderer none, .shRestore none, .runReturn])).map obsS
+    = some (.returned, .killed, 3, false) := by decide
+
+/-- Kill() after 2 steps of the Exec (`el = .execRelease (.waitRead)`) -/
+example : (runLabels (init (cfgE false)) (.sendCall 0 :: (execSchedule 0).take 2)).map (·.el) = some (.execRelease (.waitRead)) ∧
+    (runLabels (init (cfgE false)) (.sendCall 0 :: (execSchedule 0).take 2 ++ .killCall ::
+     [.shCancel (some 0), .sigExit, .resizeExit, .dispExit, .shHandlers (some 0),
+      .shReader (some 0), .shRenderer (some 0), .shRestore (some 0), .exRelWaitTimeout,
+      .exRelRenderer, .exRelRestore, .execCmdReturns, .exResReader, .exResRenderer, .exResSpawn,
+      .callbackReturns, .elCmdAbort, .runTail, .shCancel none, .shHandlers none, .shReader none,
+      .shRenderer none, .shRestore none, .runReturn])).map obsS
+    = some (.returned, .killed, 3, false) := by decide
+
+/-- Kill() after 3 steps of the Exec (`el = .execRelease (.renderer)`) -/
+example : (runLabels (init (cfgE false)) (.sendCall 0 :: (execSchedule 0).take 3)).map (·.el) = some (.execRelease (.renderer)) ∧
+    (runLabels (init (cfgE false)) (.sendCall 0 :: (execSchedule 0).take 3 ++ .killCall ::
+     [.shCancel (some 0), .sigExit, .resizeExit, .dispExit, .shHandlers (some 0),
+      .shReader (some 0), .shRenderer (some 0), .shRestore (some 0), .exRelRenderer, .exRelRestore,
+      .execCmdReturns, .exResReader, .exResRenderer, .exResSpawn, .callbackReturns, .elCmdAbort,
+      .runTail, .shCancel none, .shHandlers none, .shReader none, .shRenderer none,
+      .shRestore none, .runReturn])).map obsS
+    = some (.returned, .killed, 3, false) := by decide
+
+/-- Kill() after 4 steps of the Exec (`el = .execRelease (.restore)`) -/
+example : (runLabels (init (cfgE false)) (.sendCall 0 :: (execSchedule 0).take 4)).map (·.el) = some (.execRelease (.restore)) ∧
+    (runLabels (init (cfgE false)) (.sendCall 0 :: (execSchedule 0).take 4 ++ .killCall ::
+     [.shCancel (some 0), .sigExit, .resizeExit, .dispExit, .shHandlers (some 0),
+      .shReader (some 0), .shRenderer (some 0), .shRestore (some 0), .exRelRestore,
+      .execCmdReturns, .exResReader, .exResRenderer, .exResSpawn, .callbackReturns, .elCmdAbort,
+      .runTail, .shCancel none, .shHandlers none, .shReader none, .shRenderer none,
+      .shRestore none, .runReturn])).map obsS
+    = some (.returned, .killed, 3, false) := by decide
+
+/-- Kill() after 5 steps of the Exec (`el = .execCmd`) -/
+example : (runLabels (init (cfgE false)) (.sendCall 0 :: (execSchedule 0).take 5)).map (·.el) = some (.execCmd) ∧
+    (runLabels (init (cfgE false)) (.sendCall 0 :: (execSchedule 0).take 5 ++ .killCall ::
+     [.shCancel (some 0), .sigExit, .resizeExit, .dispExit, .shHandlers (some 0),
+      .shReader (some 0), .shRenderer (some 0), .shRestore (some 0), .execCmdReturns, .exResReader,
+      .exResRenderer, .exResSpawn, .callbackReturns, .elCmdAbort, .runTail, .shCancel none,
+      .shHandlers none, .shReader none, .shRenderer none, .shRestore none, .runReturn])).map obsS
+    = some (.returned, .killed, 3, false) := by decide
+
+/-- Kill() after 6 steps of the Exec (`el = .execRestore (.reader)`) -/
+example : (runLabels (init (cfgE false)) (.sendCall 0 :: (execSchedule 0).take 6)).map (·.el) = some (.execRestore (.reader)) ∧
+    (runLabels (init (cfgE false)) (.sendCall 0 :: (execSchedule 0).take 6 ++ .killCall ::
+     [.shCancel (some 0), .sigExit, .resizeExit, .dispExit, .shHandlers (some 0),
+      .shReader (some 0), .shRenderer (some 0), .shRestore (some 0), .exResReader, .exResRenderer,
+      .exResSpawn, .callbackReturns, .elCmdAbort, .runTail, .shCancel none, .shHandlers none,
+      .shReader none, .shRenderer none, .shRestore none, .runReturn])).map obsS
+    = some (.returned, .killed, 3, false) := by decide
+
+/-- Kill() after 7 steps of the Exec (`el = .execRestore (.renderer)`) -/
+example : (runLabels (init (cfgE false)) (.sendCall 0 :: (execSchedule 0).take 7)).map (·.el) = some (.execRestore (.renderer)) ∧
+    (runLabels (init (cfgE false)) (.sendCall 0 :: (execSchedule 0).take 7 ++ .killCall ::
+     [.shCancel (some 0), .sigExit, .resizeExit, .dispExit, .shHandlers (some 0),
+      .shReader (some 0), .shRenderer (some 0), .shRestore (some 0), .exResRenderer, .exResSpawn,
+      .callbackReturns, .elCmdAbort, .runTail, .shCancel none, .shHandlers none, .shReader none,
+      .shRenderer none, .shRestore none, .runReturn])).map obsS
+    = some (.returned, .killed, 3, false) := by decide
+
+/-- Kill() after 8 steps of the Exec (`el = .execRestore (.spawn)`) -/
+example : (runLabels (init (cfgE false)) (.sendCall 0 :: (execSchedule 0).take 8)).map (·.el) = some (.execRestore (.spawn)) ∧
+    (runLabels (init (cfgE false)) (.sendCall 0 :: (execSchedule 0).take 8 ++ .killCall ::
+     [.shCancel (some 0), .sigExit, .resizeExit, .dispExit, .shHandlers (some 0),
+      .shReader (some 0), .shRenderer (some 0), .shRestore (some 0), .exResSpawn, .callbackReturns,
+      .elCmdAbort, .runTail, .shCancel none, .shHandlers none, .shReader none, .shRenderer none,
+      .shRestore none, .runReturn])).map obsS
+    = some (.returned, .killed, 3, false) := by decide
+
+/-- Kill() after 9 steps of the Exec (`el = .callback`) -/
+example : (runLabels (init (cfgE false)) (.sendCall 0 :: (execSchedule 0).take 9)).map (·.el) = some (.callback) ∧
+    (runLabels (init (cfgE false)) (.sendCall 0 :: (execSchedule 0).take 9 ++ .killCall ::
+     [.shCancel (some 0), .sigExit, .resizeExit, .dispExit, .shHandlers (some 0),
+      .shReader (some 0), .shRenderer (some 0), .shRestore (some 0), .callbackReturns, .elCmdAbort,
+      .runTail, .shCancel none, .shHandlers none, .shReader none, .shRenderer none,
+      .shRestore none, .runReturn])).map obsS
+    = some (.returned, .killed, 3, false) := by decide
+
+/-! The supplied context is cancelled at every point of the Exec, cancelable input. -/
+
+/-- cancellation after 0 steps of the Exec (`el = .select`) -/
+example : (runLabels (init (cfgE true)) (.sendCall 0 :: (execRunC).take 0)).map (·.el) = some (.select) ∧
+    (runLabels (init (cfgE true)) (.sendCall 0 :: (execRunC).take 0 ++ .parentCancel ::
+     [.sigExit, .resizeExit, .dispExit, .elCtxExit, .runTail, .shCancel none, .shHandlers none,
+      .shReader none, .readerCanceled, .shRenderer none, .shRestore none, .runReturn])).map obsS
+    = some (.returned, .killed, 1, false) := by decide
+
+/-- cancellation after 1 steps of the Exec (`el = .execRelease (.cancelReader)`) -/
+example : (runLabels (init (cfgE true)) (.sendCall 0 :: (execRunC).take 1)).map (·.el) = some (.execRelease (.cancelReader)) ∧
+    (runLabels (init (cfgE true)) (.sendCall 0 :: (execRunC).take 1 ++ .parentCancel ::
+     [.sigExit, .resizeExit, .dispExit, .exRelCancel, .readerCanceled, .exRelWaitRead,
+      .exRelRenderer, .exRelRestore, .execCmdReturns, .exResReader, .exResRenderer, .exResSpawn,
+      .callbackReturns, .elCmdAbort, .runTail, .shCancel none, .shHandlers none, .shReader none,
+      .readerCanceled, .shRenderer none, .shRestore none, .runReturn])).map obsS
+    = some (.returned, .killed, 2, false) := by decide
+
+/-- cancellation after 2 steps of the Exec (`el = .execRelease (.waitRead)`) -/
+example : (runLabels (init (cfgE true)) (.sendCall 0 :: (execRunC).take 2)).map (·.el) = some (.execRelease (.waitRead)) ∧
+    (runLabels (init (cfgE true)) (.sendCall 0 :: (execRunC).take 2 ++ .parentCancel ::
+     [.sigExit, .resizeExit, .dispExit, .readerCanceled, .exRelWaitRead, .exRelRenderer,
+      .exRelRestore, .execCmdReturns, .exResReader, .exResRenderer, .exResSpawn, .callbackReturns,
+      .elCmdAbort, .runTail, .shCancel none, .shHandlers none, .shReader none, .readerCanceled,
+      .shRenderer none, .shRestore none, .runReturn])).map obsS
+    = some (.returned, .killed, 2, false) := by decide
+
+/-- cancellation after 3 steps of the Exec (`el = .execRelease (.waitRead)`) -/
+example : (runLabels (init (cfgE true)) (.sendCall 0 :: (execRunC).take 3)).map (·.el) = some (.execRelease (.waitRead)) ∧
+    (runLabels (init (cfgE true)) (.sendCall 0 :: (execRunC).take 3 ++ .parentCancel ::
+     [.sigExit, .resizeExit, .dispExit, .exRelWaitRead, .exRelRenderer, .exRelRestore,
+      .execCmdReturns, .exResReader, .exResRenderer, .exResSpawn, .callbackReturns, .elCmdAbort,
+      .runTail, .shCancel none, .shHandlers none, .shReader none, .readerCanceled,
+      .shRenderer none, .shRestore none, .runReturn])).map obsS
+    = some (.returned, .killed, 2, false) := by decide
+
+/-- cancellation after 4 steps of the Exec (`el = .execRelease (.renderer)`) -/
+example : (runLabels (init (cfgE true)) (.sendCall 0 :: (execRunC).take 4)).map (·.el) = some (.execRelease (.renderer)) ∧
+    (runLabels (init (cfgE true)) (.sendCall 0 :: (execRunC).take 4 ++ .parentCancel ::
+     [.sigExit, .resizeExit, .dispExit, .exRelRenderer, .exRelRestore, .execCmdReturns,
+      .exResReader, .exResRenderer, .exResSpawn, .callbackReturns, .elCmdAbort, .runTail,
+      .shCancel none, .shHandlers none, .shReader none, .readerCanceled, .shRenderer none,
+      .shRestore none, .runReturn])).map obsS
+    = some (.returned, .killed, 2, false) := by decide
+
+/-- cancellation after 5 steps of the Exec (`el = .execRelease (.restore)`) -/
+example : (runLabels (init (cfgE true)) (.sendCall 0 :: (execRunC).take 5)).map (·.el) = some (.execRelease (.restore)) ∧
+    (runLabels (init (cfgE true)) (.sendCall 0 :: (execRunC).take 5 ++ .parentCancel ::
+     [.sigExit, .resizeExit, .dispExit, .exRelRestore, .execCmdReturns, .exResReader,
+      .exResRenderer, .exResSpawn, .callbackReturns, .elCmdAbort, .runTail, .shCancel none,
+      .shHandlers none, .shReader none, .readerCanceled, .shRenderer none, .shRestore none,
+      .runReturn])).map obsS
+    = some (.returned, .killed, 2, false) := by decide
+
+/-- cancellation after 6 steps of the Exec (`el = .execCmd`) -/
+example : (runLabels (init (cfgE true)) (.sendCall 0 :: (execRunC).take 6)).map (·.el) = some (.execCmd) ∧
+    (runLabels (init (cfgE true)) (.sendCall 0 :: (execRunC).take 6 ++ .parentCancel ::
+     [.sigExit, .resizeExit, .dispExit, .execCmdReturns, .exResReader, .exResRenderer, .exResSpawn,
+      .callbackReturns, .elCmdAbort, .runTail, .shCancel none, .shHandlers none, .shReader none,
+      .readerCanceled, .shRenderer none, .shRestore none, .runReturn])).map obsS
+    = some (.returned, .killed, 2, false) := by decide
+
+/-- cancellation after 7 steps of the Exec (`el = .execRestore (.reader)`) -/
+example : (runLabels (init (cfgE true)) (.sendCall 0 :: (execRunC).take 7)).map (·.el) = some (.execRestore (.reader)) ∧
+    (runLabels (init (cfgE true)) (.sendCall 0 :: (execRunC).take 7 ++ .parentCancel ::
+     [.sigExit, .resizeExit, .dispExit, .exResReader, .exResRenderer, .exResSpawn,
+      .callbackReturns, .elCmdAbort, .runTail, .shCancel none, .shHandlers none, .shReader none,
+      .readerCanceled, .shRenderer none, .shRestore none, .runReturn])).map obsS
+    = some (.returned, .killed, 2, false) := by decide
+
+/-- cancellation after 8 steps of the Exec (`el = .execRestore (.renderer)`) -/
+example : (runLabels (init (cfgE true)) (.sendCall 0 :: (execRunC).take 8)).map (·.el) = some (.execRestore (.renderer)) ∧
+    (runLabels (init (cfgE true)) (.sendCall 0 :: (execRunC).take 8 ++ .parentCancel ::
+     [.sigExit, .resizeExit, .dispExit, .exResRenderer, .exResSpawn, .callbackReturns, .elCmdAbort,
+      .runTail, .shCancel none, .shHandlers none, .shReader none, .readerCanceled,
+      .shRenderer none, .shRestore none, .runReturn])).map obsS
+    = some (.returned, .killed, 2, false) := by decide
+
+/-- cancellation after 9 steps of the Exec (`el = .execRestore (.spawn)`) -/
+example : (runLabels (init (cfgE true)) (.sendCall 0 :: (execRunC).take 9)).map (·.el) = some (.execRestore (.spawn)) ∧
+    (runLabels (init (cfgE true)) (.sendCall 0 :: (execRunC).take 9 ++ .parentCancel ::
+     [.sigExit, .resizeExit, .dispExit, .exResSpawn, .callbackReturns, .elCmdAbort, .runTail,
+      .shCancel none, .shHandlers none, .shReader none, .readerCanceled, .shRenderer none,
+      .shRestore none, .runReturn])).map obsS
+    = some (.returned, .killed, 2, false) := by decide
+
+/-- cancellation after 10 steps of the Exec (`el = .callback`) -/
+example : (runLabels (init (cfgE true)) (.sendCall 0 :: (execRunC).take 10)).map (·.el) = some (.callback) ∧
+    (runLabels (init (cfgE true)) (.sendCall 0 :: (execRunC).take 10 ++ .parentCancel ::
+     [.sigExit, .resizeExit, .dispExit, .callbackReturns, .elCmdAbort, .runTail, .shCancel none,
+      .shHandlers none, .shReader none, .readerCanceled, .shRenderer none, .shRestore none,
+      .runReturn])).map obsS
+    = some (.returned, .killed, 2, false) := by decide
+
+/-! The supplied context is cancelled at every point of the Exec, input that cannot be cancelled. -/
+
+/-- cancellation after 0 steps of the Exec (`el = .select`) -/
+example : (runLabels (init (cfgE false)) (.sendCall 0 :: (execSchedule 0).take 0)).map (·.el) = some (.select) ∧
+    (runLabels (init (cfgE false)) (.sendCall 0 :: (execSchedule 0).take 0 ++ .parentCancel ::
+     [.sigExit, .resizeExit, .dispExit, .elCtxExit, .runTail, .shCancel none, .shHandlers none,
+      .shReader none, .shRenderer none, .shRestore none, .runReturn])).map obsS
+    = some (.returned, .killed, 1, false) := by decide
+
+/-- cancellation after 1 steps of the Exec (`el = .execRelease (.cancelReader)`) -/
+example : (runLabels (init (cfgE false)) (.sendCall 0 :: (execSchedule 0).take 1)).map (·.el) = some (.execRelease (.cancelReader)) ∧
+    (runLabels (init (cfgE false)) (.sendCall 0 :: (execSchedule 0).take 1 ++ .parentCancel ::
+     [.sigExit, .resizeExit, .dispExit, .exRelCancel, .exRelWaitTimeout, .exRelRenderer,
+      .exRelRestore, .execCmdReturns, .exResReader, .exResRenderer, .exResSpawn, .callbackReturns,
+      .elCmdAbort, .runTail, .shCancel none, .shHandlers none, .shReader none, .shRenderer none,
+      .shRestore none, .runReturn])).map obsS
+    = some (.returned, .killed, 2, false) := by decide
+
+/-- cancellation after 2 steps of the Exec (`el = .execRelease (.waitRead)`) -/
+example : (runLabels (init (cfgE false)) (.sendCall 0 :: (execSchedule 0).take 2)).map (·.el) = some (.execRelease (.waitRead)) ∧
+    (runLabels (init (cfgE false)) (.sendCall 0 :: (execSchedule 0).take 2 ++ .parentCancel ::
+     [.sigExit, .resizeExit, .dispExit, .exRelWaitTimeout, .exRelRenderer, .exRelRestore,
+      .execCmdReturns, .exResReader, .exResRenderer, .exResSpawn, .callbackReturns, .elCmdAbort,
+      .runTail, .shCancel none, .shHandlers none, .shReader none, .shRenderer none,
+      .shRestore none, .runReturn])).map obsS
+    = some (.returned, .killed, 2, false) := by decide
+
+/-- cancellation after 3 steps of the Exec (`el = .execRelease (.renderer)`) -/
+example : (runLabels (init (cfgE false)) (.sendCall 0 :: (execSchedule 0).take 3)).map (·.el) = some (.execRelease (.renderer)) ∧
+    (runLabels (init (cfgE false)) (.sendCall 0 :: (execSchedule 0).take 3 ++ .parentCancel ::
+     [.sigExit, .resizeExit, .dispExit, .exRelRenderer, .exRelRestore, .execCmdReturns,
+      .exResReader, .exResRenderer, .exResSpawn, .callbackReturns, .elCmdAbort, .runTail,
+      .shCancel none, .shHandlers none, .shReader none, .shRenderer none, .shRestore none,
+      .runReturn])).map obsS
+    = some (.returned, .killed, 2, false) := by decide
+
+/-- cancellation after 4 steps of the Exec (`el = .execRelease (.restore)`) -/
+example : (runLabels (init (cfgE false)) (.sendCall 0 :: (execSchedule 0).take 4)).map (·.el) = some (.execRelease (.restore)) ∧
+    (runLabels (init (cfgE false)) (.sendCall 0 :: (execSchedule 0).take 4 ++ .parentCancel ::
+     [.sigExit, .resizeExit, .dispExit, .exRelRestore, .execCmdReturns, .exResReader,
+      .exResRenderer, .exResSpawn, .callbackReturns, .elCmdAbort, .runTail, .shCancel none,
+      .shHandlers none, .shReader none, .shRenderer none, .shRestore none, .runReturn])).map obsS
+    = some (.returned, .killed, 2, false) := by decide
+
+/-- cancellation after 5 steps of the Exec (`el = .execCmd`) -/
+example : (runLabels (init (cfgE false)) (.sendCall 0 :: (execSchedule 0).take 5)).map (·.el) = some (.execCmd) ∧
+    (runLabels (init (cfgE false)) (.sendCall 0 :: (execSchedule 0).take 5 ++ .parentCancel ::
+     [.sigExit, .resizeExit, .dispExit, .execCmdReturns, .exResReader, .exResRenderer, .exResSpawn,
+      .callbackReturns, .elCmdAbort, .runTail, .shCancel none, .shHandlers none, .shReader none,
+      .shRenderer none, .shRestore none, .runReturn])).map obsS
+    = some (.returned, .killed, 2, false) := by decide
+
+/-- cancellation after 6 steps of the Exec (`el = .execRestore (.reader)`) -/
+example : (runLabels (init (cfgE false)) (.sendCall 0 :: (execSchedule 0).take 6)).map (·.el) = some (.execRestore (.reader)) ∧
+    (runLabels (init (cfgE false)) (.sendCall 0 :: (execSchedule 0).take 6 ++ .parentCancel ::
+     [.sigExit, .resizeExit, .dispExit, .exResReader, .exResRenderer, .exResSpawn,
+      .callbackReturns, .elCmdAbort, .runTail, .shCancel none, .shHandlers none, .shReader none,
+      .shRenderer none, .shRestore none, .runReturn])).map obsS
+    = some (.returned, .killed, 2, false) := by decide
+
+/-- cancellation after 7 steps of the Exec (`el = .execRestore (.renderer)`) -/
+example : (runLabels (init (cfgE false)) (.sendCall 0 :: (execSchedule 0).take 7)).map (·.el) = some (.execRestore (.renderer)) ∧
+    (runLabels (init (cfgE false)) (.sendCall 0 :: (execSchedule 0).take 7 ++ .parentCancel ::
+     [.sigExit, .resizeExit, .dispExit, .exResRenderer, .exResSpawn, .callbackReturns, .elCmdAbort,
+      .runTail, .shCancel none, .shHandlers none, .shReader none, .shRenderer none,
+      .shRestore none, .runReturn])).map obsS
+    = some (.returned, .killed, 2, false) := by decide
+
+/-- cancellation after 8 steps of the Exec (`el = .execRestore (.spawn)`) -/
+example : (runLabels (init (cfgE false)) (.sendCall 0 :: (execSchedule 0).take 8)).map (·.el) = some (.execRestore (.spawn)) ∧
+    (runLabels (init (cfgE false)) (.sendCall 0 :: (execSchedule 0).take 8 ++ .parentCancel ::
+     [.sigExit, .resizeExit, .dispExit, .exResSpawn, .callbackReturns, .elCmdAbort, .runTail,
+      .shCancel none, .shHandlers none, .shReader none, .shRenderer none, .shRestore none,
+      .runReturn])).map obsS
+    = some (.returned, .killed, 2, false) := by decide
+
+/-- cancellation after 9 steps of the Exec (`el = .callback`) -/
+example : (runLabels (init (cfgE false)) (.sendCall 0 :: (execSchedule 0).take 9)).map (·.el) = some (.callback) ∧
+    (runLabels (init (cfgE false)) (.sendCall 0 :: (execSchedule 0).take 9 ++ .parentCancel ::
+     [.sigExit, .resizeExit, .dispExit, .callbackReturns, .elCmdAbort, .runTail, .shCancel none,
+      .shHandlers none, .shReader none, .shRenderer none, .shRestore none, .runReturn])).map obsS
+    = some (.returned, .killed, 2, false) := by decide
+
+/-- the counterexample to `C04_run_returns` / the previous `C04_run_returns_partial` inside an Exec:
+Kill() while ReleaseTerminal runs; Kill's shutdown completes, the loop reaches the command: no
+progress step is enabled, Run has not returned, only the command's return goes on -/
+example : (runLabels (init (cfgE false))
+      [.sendCall 0, .elRecvSender 0, .exRelCancel, .killCall, .shCancel (some 0), .sigExit, .resizeExit,
+       .dispExit, .shHandlers (some 0), .shReader (some 0), .shRenderer (some 0), .shRestore (some 0),
+       .exRelWaitTimeout, .exRelRenderer, .exRelRestore]).map
+      (fun s => (s.el, s.runPc,
+        (([.suSigHandler, .suNewRenderer, .suStartRenderer, .suSpawnInit, .suOpenReader, .suSpawnHandlers,
+          .exRelCancel, .exRelWaitRead, .exRelWaitTimeout, .exRelRenderer, .exRelRestore, .exResReader,
+          .exResRenderer, .exResSpawn,
+          .elCtxExit, .elCmdAbort, .runTail, .runReturn, .dispExit, .sigExit, .sigAbort, .resizeExit,
+          .initAbort, .readerMsgAbort, .readerErrAbort, .readerCanceled] : List Label) ++
+         [none, some 0].flatMap (fun w => [Label.shCancel w, .shHandlers w, .shReader w, .shWaitRead w,
+           .shWaitReadTimeout w, .shRenderer w, .shRestore w])).all (fun l => (step s l).isNone),
+        (step s .execCmdReturns).isSome))
+      = some (.execCmd, .loop, true, true) := by
+  decide
+
+/-- the command panics: ErrProgramKilled; signals stay ignored (nobody calls RestoreTerminal) -/
+example : (runLabels (init (cfgE true)) (.sendCall 0 :: execRunC.take 6 ++
+    [.execCmdPanics, .runTail, .shCancel none, .dispExit, .sigExit, .resizeExit, .shHandlers none,
+     .shReader none, .shRenderer none, .shRestore none, .runReturn])).map
+    (fun s => (obsS s, s.ignoreSignals)) = some ((.returned, .killed, 2, false), true) := by decide
+
+/-! ### the trace checker of the `ltrace` correspondence stream is sound
 
 The `ltrace` stream records histories of REAL programs (trace points at the start-up stages, the phases of
 every shutdown call, the goroutine exits, the loop's end, Run's tail and return) and asks the checker of
